@@ -210,13 +210,54 @@ T5 = [
  ("r5-c19-2", "C19", "the ellipsis is written when the row number equals the window's start bound", "a skip_rows window that starts below zero", ["C19"], "strengthening prepared from the summary: windows starting at -1 and -2"),
 ]
 
+T6 = [
+ ("r6-c01-1", "C01", "from_poly de-duplicates the precondition rows (as r4-c17-2)", "two parallel rows one unit in the last place apart, the looser one first", ["C01", "C17"], "strengthening prepared from the agent's summary before the first run: such a precondition in C01 (C17 had the rows already)"),
+ ("r6-c01-2", "C01", "is_edge_feasible tightens the last label-0 row by 1e-7", "a class head below a non-root node and a region narrower than 1e-7 in the head predicate", [], "not reported: the margin equals the 1e-7 the pruning checks themselves allow for 'thinner than the LP tolerance' (see r5-c07-1); a slab narrower than that is 'either answer' by construction of the oracle"),
+ ("r6-c02-1", "C02", "the composition loop is bounded by the size_hint lower bound of the terminal iterator", "generic_composition_inplace called directly with a lazily filtered terminal iterator", ["C02"], "strengthening prepared from the summary: the generic entry point with a filtered iterator as a third twin of compose (pairs of trees with <= 3 nodes)"),
+ ("r6-c02-2", "C02", "the root of the right operand is assumed to be arena node 0", "a right operand built from a raw Tree whose root was replaced with add_root", [], "not reported: re-rooted arenas are outside the enumerated shapes (see r5-c13-2)"),
+ ("r6-c03-1", "C03", "the pruning schema zeroes entries of the composed predicate below 1e-10", "two small factors, e.g. a predicate 2^-20 y <= b grafted onto 2^-20 x", ["C03"], "missed at first: factors were of size 1 or far larger; a small-factor family was added to C03"),
+ ("r6-c03-2", "C03", "the in-place tree operators apply a right operand with exactly one terminal to every terminal of the left one", "a partial right operand with decisions but one terminal (from_poly without else-branch)", ["C07"], "not reported by C03, whose alphabet has no tree arithmetic as last step over such operands; C07 reports it"),
+ ("r6-c04-1", "C04", "infeasible_elimination removes the descendants of a node cached as Infeasible", "a kept infeasible only-child below which an un-pruned composition grafted a subtree, then a second elimination", ["C04"], ""),
+ ("r6-c04-2", "C04", "reduce skips the first element of the reversed node list instead of the root", "a tree whose root ends up with two identical terminal children", ["C04", "C08"], ""),
+ ("r6-c05-1", "C05", "after a forwarding the traversal pops one predicate too many", "a forwarded node that is a decision with its own subtree, five levels", ["C05"], ""),
+ ("r6-c05-2", "C05", "a kept infeasible last child also marks its parent infeasible", "a partial decision whose only child is infeasible while its own region is not", ["C05"], ""),
+ ("r6-c06-1", "C06", "the traversal skips the subtree of a forwarded decision", "label 0 infeasible, the surviving label-1 sibling a decision with something infeasible below", ["C06"], ""),
+ ("r6-c06-2", "C06", "forward_if_redundant only forwards terminals", "a redundant decision above a non-redundant decision", ["C06"], ""),
+ ("r6-c07-1", "C07", "is_edge_feasible short-cuts when the parent's predicate 'already occurs' on the path, compared with relative_eq", "operands that split at x <= 1 and x <= 1 + 2^-52, the input 1 + 2^-52", ["C07"], "strengthening prepared from the summary: such a pair of one-split operands"),
+ ("r6-c07-2", "C07", "a fast path for operands over 'the same decision structure' ignores the order of the children", "two complete operands with equal predicates at equal indices whose children were attached in different label order", ["C07"], "strengthening prepared from the summary: operand layouts depth-first against interleaved (same indices, children in the other order)"),
+ ("r6-c08-1", "C08", "reduce skips decisions whose cached state is Infeasible", "a kept infeasible only-child with two identical terminal children (after infeasible_elimination)", ["C08"], "missed at first: C08's predicates had no robustly infeasible combination (a label-0 edge under the same predicate is a closed half-space, the path is thin, not empty); a one-input family with a gap between parallel predicates was added, every partial tree also goes through infeasible_elimination first"),
+ ("r6-c08-2", "C08", "reduce reads mat[[0, 0]] of both siblings before comparing them", "terminals over R^0", ["C08"], ""),
+ ("r6-c09-1", "C09", "try_remove_child clears the slot before it looks whether the parent has children left", "a decision that loses all its children one at a time and is then used as a terminal", ["C12"], "not reported by C09, which traverses built trees only; C12 reports the stale leaf flag"),
+ ("r6-c09-2", "C09", "evaluate_decision tests is_sign_positive(bias - a.x)", "a decision with bias -0.0 and an input on the hyperplane", ["C09"], "strengthening prepared from the summary: one predicate per dimension has bias -0.0"),
+ ("r6-c10-1", "C10", "solve_linprog short-cuts on mat.is_empty()", "a polytope with rows but no columns and a negative bias", ["C10"], "missed at first: no polytope over R^0; a small family was added"),
+ ("r6-c10-2", "C10", "as_linprog skips rows with bias >= 1e20 ('infinite bound')", "a non-redundant row with such a bias", ["C10"], "strengthening prepared from the summary: systems with right-hand sides of 1e20 (coefficients of 1e21 were tried and withdrawn, see c10.rs)"),
+ ("r6-c11-1", "C11", "after a solver error phase_two solves again and trusts the second answer", "Error at call i and a displaced witness at call i+1", ["C11"], ""),
+ ("r6-c11-2", "C11", "the error message of phase_two computes the largest violation with partial_cmp().unwrap()", "a NaN solver point, at least two path rows and a logger enabled at Error level", ["C11"], "strengthening prepared from the summary: the engine installs a discarding logger enabled up to Info, so that the arguments of error! / warn! / info! are evaluated as in a logging application"),
+ ("r6-c12-1", "C12", "a hand-written clone_from forgets the root", "clone_from into a tree with another (or no) root", ["C12"], "strengthening prepared from the summary: clone_from into an empty and into a one-node tree on every state"),
+ ("r6-c12-2", "C12", "try_remove_child derives the leaf flag from the two cyclically neighbouring slots", "K >= 4 and a remaining child on a non-neighbouring label", ["C12"], "strengthening prepared from the summary: K = 4 at a smaller depth (the property names K in {2,3}; labels that are not cyclic neighbours only exist from 4 on)"),
+ ("r6-c13-1", "C13", "depth() is memoised in a Cell that merge_child_with_parent does not reset", "depth() called before a direct merge_child_with_parent and again after it", ["C13"], "the change made Tree !Sync and the engine no longer built (exit 3, no verdict). The explorers now reach their subjects through an AssertSync wrapper and query depth / len / num_terminals before every action, so a stale cached answer shows in the metrics of the next state"),
+ ("r6-c13-2", "C13", "PolyhedraGen::with_root seeds its traversal at the tree's root", "with_root at a non-root node", ["C09"], "reported by C09 (with_root from every node, added in round 5); C13 drives PolyhedraIter from the root only"),
+ ("r6-c14-1", "C14", "distance_raw subtracts the products from the bias one by one", "huge coordinates that cancel in a row, e.g. (2^53, -2^53) with x0 + x1 <= -1", ["C14"], "strengthening prepared from the summary: points (+-2^53, +-2^53), for which the unchanged arithmetic is exact"),
+ ("r6-c14-2", "C14", "intersection returns self when both operands start at the same address", "a row view intersected with the view of the whole polytope", ["C14"], "strengthening prepared from the summary: views sharing one buffer as operands"),
+ ("r6-c15-1", "C15", "remove_redundant_row_constraints keeps the row in the LP with its bias relaxed by + 1.0", "a necessary row with |bias| >= 2^53", ["C15"], "strengthening prepared from the summary: biases 2^53, 1e16, 2^60"),
+ ("r6-c15-2", "C15", "a row is kept without an LP when no other row is left", "a system of tautologies only", ["C15"], "strengthening prepared from the summary: all-tautology systems, and clause (3) now also rejects a remaining tautology 0 <= b with b >= margin"),
+ ("r6-c16-1", "C16", "remove_zero_rows tests |x| > MIN_POSITIVE", "a row whose non-zero entries are +-f64::MIN_POSITIVE", ["C16"], "strengthening prepared from the summary: +-MIN_POSITIVE among the extreme entries"),
+ ("r6-c16-2", "C16", "remove_zero_columns returns a zero bias when no column survives", "a constant function with non-zero bias", ["C16"], ""),
+ ("r6-c17-1", "C17", "from_poly splits the raw coefficient buffer into rows", "a column-major polytope matrix of at least 2x2", ["C17"], ""),
+ ("r6-c17-2", "C17", "evaluate_decision takes a fast path over memory-order slices (as r4-c01-1)", "an input with stride -1", ["C17"], ""),
+ ("r6-c18-1", "C18", "the precondition branch of the builder reads the width from the node with the highest arena index", "a precondition tree that went through deletion and slot re-use", ["C18"], "strengthening prepared from the summary: every split is also distilled through the precondition entry point (second part on top of the first part's tree)"),
+ ("r6-c18-2", "C18", "the node estimator computes 1usize << first_dim", "a first linear layer of 64 or more neurons", ["C18"], ""),
+ ("r6-c19-1", "C19", "write_inequality takes 'all coefficients zero' from max|coefficient| == 0 (NaN is ignored by max)", "a row whose non-zero entries are NaN, set through the public field", [], "not reported: non-finite matrix entries are outside every alphabet (from_mats asserts against them in debug builds; section 8)"),
+ ("r6-c19-2", "C19", "write_lincomb partially sorts in front of an open-ended skip window and treats Excluded(k) like Included(k)", "sorting active and skip_axes = (Excluded(k), Unbounded)", ["C19"], "strengthening prepared from the summary: axis windows with an exclusive start"),
+]
+
 extra = {}
 ep = os.path.join(ROOT, "tools", "seed_table_extra.json")
 if os.path.exists(ep):
     extra = json.load(open(ep))
 
 rows = []
-for sid, prop, descr, needs, caught, note in T + T2 + T3 + T4 + T5:
+for sid, prop, descr, needs, caught, note in T + T2 + T3 + T4 + T5 + T6:
     if sid in extra:
         e = extra[sid]
         descr, needs, caught, note = e["descr"], e["needs"], e["caught"], e.get("note", "")
